@@ -197,7 +197,17 @@ func (c *Ctx) flagTable(fn *ssa.Function) (rows []FlagRow, problems []string) {
 				continue
 			}
 			cv, ok := st.Val.(*ssa.Const)
-			if !ok || cv.Value == nil || cv.Value.Kind() != constant.Bool {
+			if !ok {
+				// the flag is the outcome of the bit test itself: X: data[i] == '1' / X: v&mask != 0
+				if bt, isB := st.Val.Type().Underlying().(*types.Basic); isB && bt.Kind() == types.Bool {
+					if src, bit, whenSet, isTest := decodeBitTest(st.Val); isTest {
+						stt := fa.X.Type().Underlying().(*types.Pointer).Elem().Underlying().(*types.Struct)
+						rows = append(rows, FlagRow{Field: stt.Field(fa.Field).Name(), Bit: bit, Positive: whenSet, Pos: st.Pos(), Src: src.Name()})
+					}
+				}
+				continue
+			}
+			if cv.Value == nil || cv.Value.Kind() != constant.Bool {
 				continue
 			}
 			stt := fa.X.Type().Underlying().(*types.Pointer).Elem().Underlying().(*types.Struct)
